@@ -211,6 +211,34 @@ def check_traj(traj, parent, taus, cell_counts):
     return vs
 
 
+def long_case(case):
+    """one long trajectory (longer than any internal block size); counting model vectorised with numpy"""
+    L, tau, noncorr, nc = case["L"], case["tau"], case["noncorr"], case["cells"]
+    k = np.arange(L)
+    traj = ((k * 7 + (k // 11) * 3 + (k // 1009)) % nc).astype(float)
+    traj[(k % 997) == 5] = np.nan
+    traj[50000:50003] = np.nan
+    step = tau if noncorr else 1
+    starts = np.arange(0, L - tau, step)
+    a, b = traj[starts], traj[starts + tau]
+    ok = ~(np.isnan(a) | np.isnan(b))
+    C = np.zeros((nc, nc))
+    np.add.at(C, (a[ok].astype(int), b[ok].astype(int)), 1)
+    S = C + C.T
+    rows = S.sum(axis=1)
+    E = np.divide(S, rows[:, None], out=np.zeros_like(S), where=rows[:, None] > 0)
+    key = f"C12|long|L={L}|tau={tau}|{'noncorr' if noncorr else 'sliding'}"
+    try:
+        T = np.asarray(MSM(traj, total_num_cells=nc).get_one_tau_transition_matrix(tau, noncorrelated_windows=noncorr).toarray())
+    except Exception as e:
+        return {"violations": [viol(key + "|raises", f"{type(e).__name__}: {str(e)[:100]}", case)]}
+    if T.shape != E.shape or not np.allclose(T, E, rtol=0, atol=1e-12):
+        return {"violations": [viol(key + "|entries", "transition matrix of a long trajectory differs from the counting model "
+                                    "(windows lost or added somewhere along the trajectory)", case,
+                                    observed=float(np.abs(T - E).max()) if T.shape == E.shape else list(T.shape))]}
+    return {"violations": []}
+
+
 def run(ctx):
     rep = Report(PROPERTY, "model_checking")
     if ctx.thorough:
@@ -233,7 +261,13 @@ def run(ctx):
         samples.extend(tstr(h) for h in r["samples"][:3])
         ctx.log(f"  C12 bfs |alphabet|={len(symbols)} len<={depth}: states={r['states']} transitions={r['transitions']} "
                 f"violations={len(r['violations'])}")
+    lcs = [{"long": True, "L": L, "tau": tau, "noncorr": nonc, "cells": 6}
+           for L in ((100003, 65537) if not ctx.thorough else (100003, 65537, 200001, 262145))
+           for tau, nonc in ((1, False), (7, False), (7, True))]
+    for r in ctx.pmap(long_case, lcs, chunksize=1, recheck=0):
+        rep.add_violations(r["violations"])
     rep.coverage = {
+        "long_trajectories": len(lcs),
         "states": states, "transitions": trans, "traces_validated_against_impl": trans,
         "samples": samples, "evaluations": trans, "distinct_nontrivial": dobs,
         "distinct_observations": dobs,
@@ -248,5 +282,7 @@ def run(ctx):
 
 
 def replay(case):
+    if case.get("long"):
+        return long_case(case)["violations"]
     traj = case["traj"]
     return check_traj(traj, traj[:-1] if traj else None, case["taus"], case["cell_counts"])
